@@ -25,6 +25,7 @@ type c15Val struct {
 	Wire string `json:"wire"` // hex of the value as it travels in the execute packet
 	Long string `json:"long"` // hex of the bytes sent with COM_STMT_SEND_LONG_DATA instead (two chunks), "" = inline
 	IsLD bool   `json:"is_long"`
+	Twin string `json:"twin"` // hex of another value of the same wire type (used by the earlier execution of pre = "ok-reuse")
 }
 
 type c15Case struct {
@@ -85,7 +86,37 @@ func TestVerifStmtBind(t *testing.T) {
 			return nil
 		}
 		np := len(c.Vals)
-		if c.Pre != "" && np > 0 {
+		if c.Pre == "ok-reuse" && np > 0 {
+			// an earlier successful execution that carries THIS case's parameter types with other values, then another
+			// packet of the connection; the judged execution below does not re-send the types (new-params-bound = 0)
+			pd := make([]byte, 9)
+			binary.LittleEndian.PutUint32(pd[0:4], st.id)
+			binary.LittleEndian.PutUint32(pd[5:9], 1)
+			nm := make([]byte, (np+7)/8)
+			var tys, vs []byte
+			for i, v := range c.Vals {
+				flag := byte(0)
+				if v.U {
+					flag = 0x80
+				}
+				tys = append(tys, byte(v.T), flag)
+				if v.Null {
+					nm[i>>3] |= 1 << uint(i%8)
+					continue
+				}
+				b, _ := hex.DecodeString(v.Twin)
+				vs = append(vs, b...)
+			}
+			pd = append(pd, nm...)
+			pd = append(pd, 1)
+			pd = append(pd, tys...)
+			pd = append(pd, vs...)
+			if pr := fix.send(se, mysql.ComStmtExecute, pd); pr.RespType == RespError {
+				obs.Status, obs.Err = "pre-refused", fmt.Sprint(pr.Data)
+				return nil
+			}
+			fix.send(se, mysql.ComPing, nil)
+		} else if c.Pre != "" && np > 0 {
 			// an earlier execution of this statement with other values (LONG 1000+i), succeeding or failing at the backend
 			pd := make([]byte, 9)
 			binary.LittleEndian.PutUint32(pd[0:4], st.id)
@@ -142,8 +173,12 @@ func TestVerifStmtBind(t *testing.T) {
 		}
 		if np > 0 {
 			data = append(data, nullmap...)
-			data = append(data, 1)
-			data = append(data, types...)
+			if c.Pre == "ok-reuse" {
+				data = append(data, 0) // the types of the previous execution apply
+			} else {
+				data = append(data, 1)
+				data = append(data, types...)
+			}
 			data = append(data, values...)
 		}
 		fix.be.take()
@@ -151,7 +186,9 @@ func TestVerifStmtBind(t *testing.T) {
 		for _, s := range fix.be.take() {
 			obs.Out = append(obs.Out, hex.EncodeToString([]byte(s)))
 		}
-		if r.RespType == RespError {
+		if fix.panicked != "" {
+			obs.Status, obs.Err = "panicked", fix.panicked
+		} else if r.RespType == RespError {
 			obs.Status, obs.Err = "refused", fmt.Sprint(r.Data)
 		} else {
 			obs.Status = "executed"
